@@ -359,6 +359,26 @@ func (m *prattModel) extractRbp(p *Program, f *ssa.Function) rbp {
 	return rbp{Kind: rbpOwn, K: off, Call: call}
 }
 
+// operandBypass: returns of the parselet that yield a node (nil error) without being dominated
+// by its call to the climbing function: the operand was obtained some other way.
+func (m *prattModel) operandBypass(p *Program, f *ssa.Function, r rbp) []*ssa.Return {
+	if r.Call == nil {
+		return nil
+	}
+	ek := EKOf(p)
+	var out []*ssa.Return
+	for _, ret := range returnsOf(f) {
+		res := effectiveResults(ret)
+		if len(res) < 2 || !ek.KindsAt(res[1], FactsOf(f).At(ret.Block())).Has(KNil) {
+			continue
+		}
+		if !dominatesInstr(r.Call, ret) {
+			out = append(out, ret)
+		}
+	}
+	return out
+}
+
 // derivesFromLocal is derivesFrom extended through local struct variables: a load from (a field
 // of) a local Alloc derives from root if every whole-value store to that Alloc does.
 func derivesFromLocal(v ssa.Value, root func(ssa.Value) bool) bool {
